@@ -231,11 +231,13 @@ def base_obligations(tier):
                 cx, cy = lx.startswith('collapse'), ly.startswith('collapse')
                 if cx and cy:
                     continue
+                ev = {l[len('expand='):] for l in (lx, ly) if l.startswith('expand=')}
                 if q:
                     # quick: expand shared variables only (on both sides together or on one side), at most 7 leaves
-                    ev = {l[len('expand='):] for l in (lx, ly) if l.startswith('expand=')}
                     if any(v and v not in shared for v in ev) or n > 7:
                         continue
+                elif sum(len(v) for v in ev) > 2 and any(ch not in shared for v in ev for ch in v):
+                    continue      # thorough: two-variable expansions only among shared variables
                 lvx, nsx = layout(psx, sx)
                 lvy, nsy = layout(psy, sy)
                 fm = (['m' if v in shared else 'u' for v in lvx], ['m' if v in shared else 'u' for v in lvy])
@@ -243,6 +245,8 @@ def base_obligations(tier):
                 variants = [None] + nodes
                 if q:
                     variants = variants[:1] + (variants[1::max(1, (len(variants) - 1) // 2)][:2] if not (cx or cy) else [])
+                else:
+                    variants = variants[:1] + variants[1::max(1, (len(variants) - 1) // 4)][:4]
                 for var in variants:
                     sm = (list(nsx), list(nsy))
                     if var is not None:
@@ -260,6 +264,8 @@ def base_obligations(tier):
                                 fulls = [[i, nx + j] for i, v in enumerate(lvx) for j, w in enumerate(lvy) if v is not None and v == w]
                                 if var is not None or (q and lf > 1):
                                     fulls = fulls[:1]
+                                elif not q:
+                                    fulls = fulls[:3]
                         for full in fulls:
                             yield Obligation('C06.match[%s ~ %s | x:%s y:%s | slash@%s | %s lf=%d full=%s]' % (px, py, lx, ly, var, feat, lf, full), 'h_match',
                                              dict(px=px, py=py, sx=sx, sy=sy, feat=feat, lf=lf, full=full, fmodes=fm, smodes=sm), cost=n * n)
